@@ -42,9 +42,11 @@ def transform(rng, pb):
         nu = other(rng, d2["unit"], VEL)
         for s in d2["surveys"]:
             f = gen.conv(1.0, s["unit"], nu)
+            fe = gen.conv(1.0, s.get("err_unit", s["unit"]), nu)
             s["rv"] = [v * f for v in s["rv"]]
-            s["err"] = [v * f for v in s["err"]]
+            s["err"] = [v * fe for v in s["err"]]
             s["unit"] = nu
+            s["err_unit"] = nu
         f_data = gen.conv(1.0, d2["unit"], nu)
         d2["unit"] = nu
         what.add("data")
